@@ -6,8 +6,10 @@ package api
 
 import (
 	"fmt"
+	"io"
 	"net/http"
 	"net/http/httptest"
+	"strings"
 	"testing"
 	"time"
 
@@ -21,6 +23,11 @@ type c04JwtReq struct {
 	Car   string `json:"car"`           // Bearer bearer BEARER none empty raw basic
 	Tok   c04Tok `json:"tok"`
 	Reuse int    `json:"reuse,omitempty"` // n>0: resend the Authorization value of request n-1
+	Rep   int    `json:"rep,omitempty"`   // send the request Rep more times (long-lived parser), each one judged
+	M     string `json:"m,omitempty"`     // HTTP method (default GET)
+	Up    bool   `json:"up,omitempty"`    // Upgrade: websocket header
+	P10   bool   `json:"p10,omitempty"`   // HTTP/1.0 request
+	Body  bool   `json:"body,omitempty"`  // the request carries a body
 }
 
 type c04JwtCase struct {
@@ -93,6 +100,8 @@ func c04JwtInterp(t *testing.T, c c04JwtCase) (v kit.Verdict) {
 	classes := map[string]bool{}
 	var fail string
 	accCur, accPrev, rej := false, false, false
+	excluded := false
+	var elapsedMs int64
 	res := kit.Bubble(t, func() {
 		keys := map[string]string{"cur": c.Secret, "prev": c.Prev, "other": c.Other, "empty": ""}
 		if c.Prev == "" {
@@ -127,6 +136,12 @@ func c04JwtInterp(t *testing.T, c c04JwtCase) (v kit.Verdict) {
 		var sentPresent []bool
 		for i, rq := range c.Reqs {
 			if rq.Adv > 0 {
+				// the runtime's virtual nanosecond clock starts at 2000-01-01 and overflows
+				// int64 about 262 years later: stay well below
+				if elapsedMs += int64(rq.Adv); elapsedMs > 200*365*86400*1000 {
+					excluded = true
+					return
+				}
 				time.Sleep(time.Duration(rq.Adv) * time.Millisecond)
 				if rq.Adv >= 24*3600*1000 {
 					classes["adv>24h"] = true
@@ -179,22 +194,69 @@ func c04JwtInterp(t *testing.T, c c04JwtCase) (v kit.Verdict) {
 				classes["unspec:"+why] = true
 			}
 
-			req := httptest.NewRequest(http.MethodGet, "http://localhost/c04/jwt", nil)
-			if present {
-				req.Header.Set("Authorization", value)
+			method := rq.M
+			if method == "" {
+				method = http.MethodGet
+			} else {
+				classes["method:"+method] = true
 			}
-			seen = &c04Seen{values: map[string]any{}}
-			wantKeys = wantKeys[:0]
-			for k := range claims {
-				wantKeys = append(wantKeys, k)
+			if rq.Rep > 0 {
+				classes["long-history"] = true
 			}
-			rec := httptest.NewRecorder()
+			if tk := rq.Tok; rq.Reuse == 0 {
+				if tk.Many > 0 {
+					classes["claims:many"] = true
+				}
+				for _, tc := range []c04Time{tk.Exp, tk.Nbf, tk.Iat} {
+					if tc.K == "abs" {
+						classes["time:absolute-magnitude"] = true
+					}
+				}
+			}
+			var rec *httptest.ResponseRecorder
 			before := cbCalls
-			mw.ServeHTTP(rec, req)
-			what := fmt.Sprintf("request %d at +%v (Authorization %q; reference: %s/%s)", i, now.Sub(time.Date(2000, 1, 1, 0, 0, 0, 0, time.UTC)), value, exp, why)
-			if msg := c04JwtJudge(what, exp, claims, rec.Code, seen); msg != "" {
-				fail = msg
-				return
+			var what string
+			reps := rq.Rep
+			if reps > 3 && rq.Reuse == 0 && rq.Tok.Many > 0 {
+				reps = 3 // a context chain of 1000 values times thousands of requests is only slow
+			}
+			if max := 1000000/(len(value)+1) + 1; reps > max {
+				reps = max // bound the bytes parsed per case
+			}
+			for rep := 0; rep <= reps; rep++ {
+				var body io.Reader
+				if rq.Body {
+					body = strings.NewReader(`{"payload":"c04"}`)
+				}
+				req := httptest.NewRequest(method, "http://localhost/c04/jwt", body)
+				if present {
+					req.Header.Set("Authorization", value)
+				}
+				if rq.Up {
+					req.Header.Set("Upgrade", "websocket")
+					req.Header.Set("Connection", "Upgrade")
+					classes["header:upgrade-websocket"] = true
+				}
+				if rq.P10 {
+					req.Proto, req.ProtoMajor, req.ProtoMinor = "HTTP/1.0", 1, 0
+				}
+				seen = &c04Seen{values: map[string]any{}}
+				wantKeys = wantKeys[:0]
+				for k := range claims {
+					wantKeys = append(wantKeys, k)
+				}
+				rec = httptest.NewRecorder()
+				before = cbCalls
+				mw.ServeHTTP(rec, req)
+				shown := value
+				if len(shown) > 300 {
+					shown = shown[:300] + "..."
+				}
+				what = fmt.Sprintf("request %d (repetition %d) at +%v (%s, Authorization %q; reference: %s/%s)", i, rep, now.Sub(time.Date(2000, 1, 1, 0, 0, 0, 0, time.UTC)), method, shown, exp, why)
+				if msg := c04JwtJudge(what, exp, claims, rec.Code, seen); msg != "" {
+					fail = msg
+					return
+				}
 			}
 			if exp == c04Unspec {
 				// not judged; recorded so that the evidence shows what the code does there
@@ -211,6 +273,7 @@ func c04JwtInterp(t *testing.T, c c04JwtCase) (v kit.Verdict) {
 		}
 	})
 	v.NonTrivial = accCur && accPrev && rej
+	v.Excluded = excluded
 	v.Classes = c04ClassList(classes)
 	if fail != "" {
 		v.Fail = fail
@@ -224,8 +287,28 @@ func c04JwtInterp(t *testing.T, c c04JwtCase) (v kit.Verdict) {
 
 var c04Secrets = []string{"secret-current-0001", "s3cr3t-AAAAAAAA", "key-with-üñí-bytes", "0123456789abcdef0123456789abcdef0123456789abcdef0123456789abcdef0123456789abcdef"}
 
+// absolute NumericDate literals: boundaries of the usual integer widths; the
+// reference verifier decides on the exact value (>= 2^60: unspecified)
+var c04AbsPast = []string{"0", "1", "-1", "127", "128", "255", "256", "32767", "32768", "65535", "65536", "1e3", "946684799"}
+var c04AbsFuture = []string{"2147483647", "2147483648", "4294967295", "4294967296", "9007199254740991", "9007199254740993",
+	"253402300799", "253402300800", "1e15", "2147483647.5"}
+var c04AbsHuge = []string{"1152921504606846976", "4611686018427387904", "9223372036854775807", "9223372036854775808", "1e19", "1e30",
+	"-9223372036854775808", "18446744073709551616"}
+
 func c04GenTime(rt *rapid.T, label string, good bool, kind string) c04Time {
 	// kind: "exp" -> valid when in the future, "nb" -> valid when not in the future
+	if rapid.IntRange(0, 9).Draw(rt, label+"-abs?") == 0 {
+		var pool []string
+		switch {
+		case rapid.IntRange(0, 5).Draw(rt, label+"-huge?") == 0:
+			pool = c04AbsHuge
+		case good == (kind == "exp"):
+			pool = c04AbsFuture
+		default:
+			pool = c04AbsPast
+		}
+		return c04Time{K: "abs", Lit: rapid.SampledFrom(pool).Draw(rt, label+"-lit")}
+	}
 	if good {
 		if rapid.IntRange(0, 9).Draw(rt, label+"-absent") < 3 {
 			return c04Time{K: "absent"}
@@ -255,9 +338,11 @@ func c04GenTime(rt *rapid.T, label string, good bool, kind string) c04Time {
 	return tm
 }
 
-var c04ClaimKeys = []string{"uid", "role", "a.b", "", "Exp", "x y", "名", "scope", "n"}
+var c04ClaimKeys = []string{"uid", "role", "a.b", "", "Exp", "x y", "名", "scope", "n", "UID", "%s%d%!(EXTRA", "a*b?[c]{d}", "$(x);`y`|&", "k\u0000z",
+	"long-key-" + "kkkkkkkkkkkkkkkkkkkkkkkkkkkkkkkkkkkkkkkkkkkkkkkkkkkkkkkkkkkkkkkkkkkkkkkkkkkkkkkkkkkkkkkkkkkkkkkkkkkkkkkkkkkkkkkkkkkkkkkkkkkkkkkkkkkkkkkkkkkkkkkkkkkkkkkkkkkkkkkkkkkkkkkkkkkkkkkkkkkkkkkkkkkkkkkkkkkkkkkkkkkkkkkkkkkkkkkkkkkkkkkkkkkkkkkkkkkkkkkkkkkkkkkkkkkkkkkkkkkkkkkk"}
 var c04ClaimVals = []string{`"alice"`, `""`, `"üé\n"`, `12`, `-3.50`, `1e3`, `12345678901234567890`, `0.1`, `true`, `false`, `null`,
-	`{"a":[1,"x",{"b":false}]}`, `[1,2,3]`, `{}`, `[]`, `9007199254740993`}
+	`{"a":[1,"x",{"b":false}]}`, `[1,2,3]`, `{}`, `[]`, `9007199254740993`, `"%s %d %!v"`, `"a*b?[c]"`, `"x\u0000y"`, `#str:100`, `#str:4096`, `#str:65537`,
+	`2147483648`, `-9223372036854775808`, `18446744073709551616`, `1e400`}
 
 func c04GenTok(rt *rapid.T, hasPrev bool) c04Tok {
 	mode := rapid.IntRange(0, 99).Draw(rt, "mode")
@@ -315,6 +400,9 @@ func c04GenTok(rt *rapid.T, hasPrev bool) c04Tok {
 		used[k] = true
 		tk.Custom = append(tk.Custom, c04Claim{K: k, V: rapid.SampledFrom(c04ClaimVals).Draw(rt, "cv")})
 	}
+	if rapid.IntRange(0, 199).Draw(rt, "many?") == 97 {
+		tk.Many = rapid.SampledFrom([]int{65, 100, 400}).Draw(rt, "many")
+	}
 	return tk
 }
 
@@ -323,7 +411,8 @@ func c04GenCarrier(rt *rapid.T) string {
 }
 
 func c04GenAdv(rt *rapid.T) int {
-	return rapid.SampledFrom([]int{0, 0, 0, 0, 1, 500, 1000, 1000, 2000, 61000, 3600 * 1000, 25 * 3600 * 1000}).Draw(rt, "adv")
+	return rapid.SampledFrom([]int{0, 0, 0, 0, 1, 500, 1000, 1000, 2000, 61000, 3600 * 1000, 25 * 3600 * 1000,
+		30 * 86400 * 1000, 100 * 365 * 86400 * 1000}).Draw(rt, "adv")
 }
 
 func c04JwtGen(rt *rapid.T) c04JwtCase {
@@ -340,13 +429,36 @@ func c04JwtGen(rt *rapid.T) c04JwtCase {
 	}
 	c.Cb = rapid.IntRange(0, 3).Draw(rt, "cb") == 0
 	n := rapid.IntRange(1, 30).Draw(rt, "nreq")
+	longDone, centuryDone := false, false
+	wantLong := rapid.IntRange(0, 11).Draw(rt, "long?") == 7
 	for i := 0; i < n; i++ {
 		rq := c04JwtReq{Adv: c04GenAdv(rt)}
+		if rq.Adv >= 100*365*86400*1000 {
+			if centuryDone {
+				rq.Adv = 1000
+			}
+			centuryDone = true
+		}
 		if i > 0 && rapid.IntRange(0, 9).Draw(rt, "reuse?") == 0 {
 			rq.Reuse = rapid.IntRange(1, i).Draw(rt, "reuse")
 		} else {
 			rq.Car = c04GenCarrier(rt)
 			rq.Tok = c04GenTok(rt, c.Prev != "")
+		}
+		if rapid.IntRange(0, 3).Draw(rt, "shape?") == 0 {
+			rq.M = rapid.SampledFrom([]string{"POST", "PUT", "DELETE", "HEAD", "OPTIONS", "PATCH", "CONNECT", "TRACE"}).Draw(rt, "method")
+			rq.Up = rapid.IntRange(0, 2).Draw(rt, "upgrade") == 0
+			rq.P10 = rapid.IntRange(0, 3).Draw(rt, "http10") == 0
+			rq.Body = rapid.Bool().Draw(rt, "hasbody")
+		}
+		if wantLong && !longDone && i < 3 {
+			// a long-lived parser: the same request many times
+			rq.Rep = rapid.SampledFrom([]int{1001, 1000, 1500, 5000}).Draw(rt, "rep")
+			longDone = true
+			// thousands of ACCEPTED requests under one secret are what moves the parser's counters
+			rq.Reuse, rq.Car = 0, "Bearer"
+			rq.Tok = c04Tok{Alg: "HS256", Key: rapid.SampledFrom([]string{"cur", "cur", "prev"}).Draw(rt, "long-key"),
+				Exp: c04Time{K: "absent"}, Nbf: c04Time{K: "absent"}, Iat: c04Time{K: "absent"}}
 		}
 		c.Reqs = append(c.Reqs, rq)
 	}
